@@ -68,27 +68,58 @@ void *__real_malloc(size_t n);
 void __real_free(void *p);
 
 /* ------------------------------------------------------------------ hosts (numeric only) */
-#define NHOST 14
-struct Host { const char *name; const char *service; int flags; int family; int socktype; };
+#define NHOST 34
+#define NOHINTS (-1)    /* family marker: ar_request = NULL */
+struct Host { const char *name; const char *service; int flags; int family; int socktype; int protocol; };
 static const struct Host hosts[NHOST] = {
-	{ "127.0.0.1", NULL, AI_NUMERICHOST, AF_UNSPEC, SOCK_STREAM },
-	{ "::1", NULL, AI_NUMERICHOST, AF_UNSPEC, SOCK_STREAM },
-	{ "10.1.2.3", "80", AI_NUMERICHOST | AI_NUMERICSERV, AF_UNSPEC, SOCK_STREAM },
-	{ "256.1.1.1", NULL, AI_NUMERICHOST, AF_UNSPEC, SOCK_STREAM },
-	{ "not-an-ip", NULL, AI_NUMERICHOST, AF_UNSPEC, SOCK_STREAM },
-	{ "fe80::1", "53", AI_NUMERICHOST | AI_NUMERICSERV, AF_UNSPEC, SOCK_DGRAM },
-	{ "::ffff:1.2.3.4", NULL, AI_NUMERICHOST, AF_INET6, SOCK_STREAM },
-	{ "1.2.3", NULL, AI_NUMERICHOST, AF_INET, SOCK_STREAM },
-	{ "", NULL, AI_NUMERICHOST, AF_UNSPEC, SOCK_STREAM },
-	{ NULL, "8080", AI_NUMERICHOST | AI_NUMERICSERV | AI_PASSIVE, AF_INET, SOCK_STREAM },
-	{ "::1", NULL, AI_NUMERICHOST, AF_INET, SOCK_STREAM },
-	{ "192.168.0.1", "notaport", AI_NUMERICHOST | AI_NUMERICSERV, AF_UNSPEC, SOCK_STREAM },
-	{ "127.0.0.1", NULL, AI_NUMERICHOST, AF_UNSPEC, 9999 },
-	{ "0.0.0.0", "0", AI_NUMERICHOST | AI_NUMERICSERV, AF_UNSPEC, 0 },
+	{ "127.0.0.1", NULL, AI_NUMERICHOST, AF_UNSPEC, SOCK_STREAM, 0 },
+	{ "::1", NULL, AI_NUMERICHOST, AF_UNSPEC, SOCK_STREAM, 0 },
+	{ "10.1.2.3", "80", AI_NUMERICHOST | AI_NUMERICSERV, AF_UNSPEC, SOCK_STREAM, 0 },
+	{ "256.1.1.1", NULL, AI_NUMERICHOST, AF_UNSPEC, SOCK_STREAM, 0 },
+	{ "not-an-ip", NULL, AI_NUMERICHOST, AF_UNSPEC, SOCK_STREAM, 0 },
+	{ "fe80::1", "53", AI_NUMERICHOST | AI_NUMERICSERV, AF_UNSPEC, SOCK_DGRAM, 0 },
+	{ "::ffff:1.2.3.4", NULL, AI_NUMERICHOST, AF_INET6, SOCK_STREAM, 0 },
+	{ "1.2.3", NULL, AI_NUMERICHOST, AF_INET, SOCK_STREAM, 0 },
+	{ "", NULL, AI_NUMERICHOST, AF_UNSPEC, SOCK_STREAM, 0 },
+	{ NULL, "8080", AI_NUMERICHOST | AI_NUMERICSERV | AI_PASSIVE, AF_INET, SOCK_STREAM, 0 },
+	{ "::1", NULL, AI_NUMERICHOST, AF_INET, SOCK_STREAM, 0 },
+	{ "192.168.0.1", "notaport", AI_NUMERICHOST | AI_NUMERICSERV, AF_UNSPEC, SOCK_STREAM, 0 },
+	{ "127.0.0.1", NULL, AI_NUMERICHOST, AF_UNSPEC, 9999, 0 },
+	{ "0.0.0.0", "0", AI_NUMERICHOST | AI_NUMERICSERV, AF_UNSPEC, 0, 0 },
+	/* 14.. : ai_protocol carries information */
+	{ "127.0.0.1", "53", AI_NUMERICHOST | AI_NUMERICSERV, AF_INET, 0, IPPROTO_UDP },
+	{ "::1", "80", AI_NUMERICHOST | AI_NUMERICSERV, AF_UNSPEC, 0, IPPROTO_TCP },
+	{ "127.0.0.1", NULL, AI_NUMERICHOST, AF_INET, SOCK_RAW, IPPROTO_ICMP },
+	{ "::1", NULL, AI_NUMERICHOST, AF_INET6, SOCK_RAW, IPPROTO_ICMPV6 },
+	{ "10.0.0.1", "7", AI_NUMERICHOST | AI_NUMERICSERV, AF_INET, SOCK_STREAM, IPPROTO_UDP },   /* contradictory */
+	{ "10.0.0.1", "7", AI_NUMERICHOST | AI_NUMERICSERV, AF_INET, SOCK_DGRAM, IPPROTO_TCP },    /* contradictory */
+	{ "10.0.0.2", "9", AI_NUMERICHOST | AI_NUMERICSERV, AF_INET, 0, IPPROTO_SCTP },
+	{ "10.0.0.2", "9", AI_NUMERICHOST | AI_NUMERICSERV, AF_INET, SOCK_DGRAM, IPPROTO_UDP },
+	/* 22.. : service names (local /etc/services), results differ by protocol */
+	{ "127.0.0.1", "domain", AI_NUMERICHOST, AF_INET, 0, IPPROTO_UDP },
+	{ "127.0.0.1", "domain", AI_NUMERICHOST, AF_INET, 0, 0 },
+	{ "::1", "http", AI_NUMERICHOST, AF_INET6, 0, IPPROTO_TCP },
+	{ "127.0.0.1", "tftp", AI_NUMERICHOST, AF_INET, 0, 0 },
+	{ "127.0.0.1", "tftp", AI_NUMERICHOST, AF_INET, SOCK_STREAM, IPPROTO_TCP },
+	{ "127.0.0.1", "no-such-service", AI_NUMERICHOST, AF_INET, 0, IPPROTO_UDP },
+	/* 28.. : NULL hints */
+	{ "127.0.0.1", "80", 0, NOHINTS, 0, 0 },
+	{ "::1", NULL, 0, NOHINTS, 0, 0 },
+	{ "10.9.8.7", NULL, 0, NOHINTS, 0, 0 },
+	/* 31.. : more flags */
+	{ "127.0.0.1", NULL, AI_NUMERICHOST | AI_CANONNAME, AF_INET, SOCK_STREAM, IPPROTO_TCP },
+	{ "1.2.3.4", "22", AI_NUMERICHOST | AI_NUMERICSERV | AI_V4MAPPED | AI_ALL, AF_INET6, SOCK_STREAM, 0 },
+	{ NULL, "53", AI_NUMERICSERV | AI_PASSIVE, AF_UNSPEC, 0, IPPROTO_UDP },
 };
+static const char HOSTCH[] = "0123456789abcdefghijklmnopqrstuvwxyz";
+static int host_of_char(int c)
+{
+	const char *p = c ? strchr(HOSTCH, c) : NULL;
+	return p && (p - HOSTCH) < NHOST ? (int)(p - HOSTCH) : -1;
+}
 static struct addrinfo hints_tab[NHOST];
 static int oracle_rc[NHOST];
-static char oracle_str[NHOST][512];
+static char oracle_str[NHOST][1024];
 
 /* canonical text of an addrinfo chain */
 static void ai_str(const struct addrinfo *ai, char *out, size_t cap)
@@ -107,7 +138,8 @@ static void ai_str(const struct addrinfo *ai, char *out, size_t cap)
 			inet_ntop(AF_INET6, &sa->sin6_addr, buf, sizeof buf);
 			port = ntohs(sa->sin6_port);
 		}
-		o += snprintf(out + o, cap - o, "%d/%d/%d/%s/%d;", ai->ai_family, ai->ai_socktype, ai->ai_protocol, buf, port);
+		o += snprintf(out + o, cap - o, "%d/%d/%d/%s/%d/%x/%d/%s;", ai->ai_family, ai->ai_socktype, ai->ai_protocol, buf, port,
+			      ai->ai_flags, (int)ai->ai_addrlen, ai->ai_canonname ? ai->ai_canonname : "-");
 	}
 }
 
@@ -115,10 +147,11 @@ static void ai_str(const struct addrinfo *ai, char *out, size_t cap)
 #define MAXT 6
 #define NSUB 4          /* real submitter threads 1..4 */
 #define CHAIN_T 5       /* pseudo submitter: the resolver thread calling getaddrinfo_a from a callback */
-#define MAXSEQ 12
+#define MAXSEQ 400
+#define BIDMUL 1000      /* batch id = thread * BIDMUL + sequence number */
 #define MAXN 16
 #define STALE 7777
-#define FENCE_SEQ 99
+#define FENCE_SEQ 999
 
 struct Batch;
 static void submit(struct Batch *b);
@@ -131,10 +164,12 @@ struct Batch {
 	sem_t sem;
 	int signo;
 	volatile int done_seen;
+	int finals_done;
 	struct Batch *chain;       /* follow-up batch submitted by this batch's callback */
 };
 static struct Batch batches[MAXT][MAXSEQ + 1];   /* [t][MAXSEQ] = the TSan fence batch */
 static int nbatch[MAXT];
+static int window[MAXT];      /* > 0: streaming, at most that many batches of the thread in flight */
 static int nthreads;
 static uint64_t scn_seed;
 static int pert;
@@ -143,7 +178,7 @@ static pthread_barrier_t start_bar;
 
 static struct Batch *bid_batch(int bid)
 {
-	int t = bid / 100, q = bid % 100;
+	int t = bid / BIDMUL, q = bid % BIDMUL;
 	if (t < 1 || t >= MAXT) return NULL;
 	if (q == FENCE_SEQ) return &batches[t][MAXSEQ];
 	if (q >= nbatch[t]) return NULL;
@@ -154,7 +189,7 @@ static struct Batch *bid_batch(int bid)
 enum { E_BEGIN, E_LOCK, E_UNLOCK, E_CREATE, E_MALLOC, E_SIGNAL, E_RET, E_GACALL, E_GARET, E_NOTIFY,
        E_KILL, E_SIGRECV, E_FREE, E_CWAIT, E_CWRET, E_POLL, E_FINAL, E_TIMEOUT, E_NOTE, E_MASK };
 struct Ev { int ready; int kind, who, a, b, c, d; char snap[MAXN + 2]; };
-#define MAXEV 20000
+#define MAXEV 250000
 static struct Ev evs[MAXEV];
 static int nev;
 static int overflow_;
@@ -311,12 +346,13 @@ int __wrap_pthread_cond_signal(pthread_cond_t *c)
 	return rc;
 }
 
-struct Tramp { void *(*fn)(void *); void *arg; };
+static volatile int sig_bid[MAXT][16];   /* which batch a (thread, signal slot) currently stands for */
+struct Tramp { void *(*fn)(void *); void *arg; int idx; };
 static void *tramp(void *p)
 {
 	struct Tramp t = *(struct Tramp *)p;
 	__real_free(p);
-	my_idx = -1;
+	my_idx = t.idx;
 	prng = scn_seed * 77 + 5;
 	return t.fn(t.arg);
 }
@@ -324,10 +360,17 @@ int __wrap_pthread_create(pthread_t *t, const pthread_attr_t *a, void *(*fn)(voi
 {
 	struct Tramp *tp;
 	if (!tracing() || in_cb) return __real_pthread_create(t, a, fn, arg);
-	perturb();
-	logev(E_CREATE, 0, 0, 0, 0);
 	tp = __real_malloc(sizeof *tp);
 	tp->fn = fn; tp->arg = arg;
+	if (my_idx == -1) {
+		/* the resolver starts a helper (an implementation may run the SIGEV_THREAD callback in
+		 * a thread of its own): not traced, its callback is logged as thread "N" */
+		tp->idx = -2;
+		return __real_pthread_create(t, a, tramp, tp);
+	}
+	perturb();
+	logev(E_CREATE, 0, 0, 0, 0);
+	tp->idx = -1;
 	return __real_pthread_create(t, a, tramp, tp);
 }
 int __wrap_pthread_kill(pthread_t t, int sig)
@@ -337,7 +380,8 @@ int __wrap_pthread_kill(pthread_t t, int sig)
 	for (i = 1; i < MAXT; i++)
 		if (i <= nthreads && pthread_equal(thr[i], t)) target = i;
 	perturb();
-	logev(E_KILL, target, sig - SIGRTMIN, 0, 0);
+	logev(E_KILL, target, sig - SIGRTMIN,
+	      (target > 0 && sig - SIGRTMIN >= 0 && sig - SIGRTMIN < 16) ? sig_bid[target][sig - SIGRTMIN] : 0, 0);
 	rc = __real_pthread_kill(t, sig);
 	perturb();
 	return rc;
@@ -362,23 +406,32 @@ void __wrap_free(void *p)
 /* which item does a getaddrinfo call of netdb.c belong to?  (by the address of ar_result) */
 static int find_item(struct addrinfo **res, int *bid, int *k)
 {
-	int t, q, i;
-	for (t = 1; t < MAXT; t++)
-		for (q = 0; q <= MAXSEQ; q++) {
-			struct Batch *b = &batches[t][q];
-			if (q < MAXSEQ && q >= nbatch[t]) continue;
-			for (i = 0; i < b->n; i++)
-				if (res == &b->cb[i].ar_result) { *bid = b->bid; *k = i; return 1; }
-		}
+	uintptr_t p = (uintptr_t)res, lo = (uintptr_t)&batches[0][0], hi = (uintptr_t)&batches[MAXT - 1][MAXSEQ] + sizeof(struct Batch);
+	struct Batch *b;
+	int i;
+	if (p < lo || p >= hi) return 0;
+	b = &batches[0][0] + (p - lo) / sizeof(struct Batch);
+	for (i = 0; i < b->n && i < MAXN; i++)
+		if (res == &b->cb[i].ar_result) { *bid = b->bid; *k = i; return 1; }
 	return 0;
 }
 int __wrap_getaddrinfo(const char *node, const char *service, const struct addrinfo *hints, struct addrinfo **res)
 {
 	int rc, bid = -1, k = -1;
 	if (!tracing() || in_cb) return __real_getaddrinfo(node, service, hints, res);
+	int argsok = 0;
 	find_item(res, &bid, &k);
+	if (bid >= 0) {
+		/* the arguments netdb.c passes on, against the request's own (all hint fields) */
+		struct gaicb *g = &bid_batch(bid)->cb[k];
+		const struct addrinfo *rq = g->ar_request;
+		argsok = node == g->ar_name && service == g->ar_service && (!hints) == (!rq) &&
+			(!hints || (hints->ai_flags == rq->ai_flags && hints->ai_family == rq->ai_family &&
+				    hints->ai_socktype == rq->ai_socktype && hints->ai_protocol == rq->ai_protocol &&
+				    hints->ai_addrlen == 0 && !hints->ai_addr && !hints->ai_canonname && !hints->ai_next));
+	}
 	perturb();
-	logev(E_GACALL, bid, k, bid >= 0 ? bid_batch(bid)->host[k] : -1, 0);
+	logev(E_GACALL, bid, k, bid >= 0 ? bid_batch(bid)->host[k] : -1, argsok);
 	perturb();
 	rc = __real_getaddrinfo(node, service, hints, res);
 	perturb();
@@ -415,7 +468,6 @@ static void cb_wrong(union sigval v)
 	in_cb--;
 }
 #define WRONG_SLOT 13
-static volatile int sig_bid[MAXT][16];
 static void on_signal(int signo, siginfo_t *si, void *uc)
 {
 	int e = errno;
@@ -441,8 +493,11 @@ static double now_s(void)
 	return ts.tv_sec + ts.tv_nsec * 1e-9;
 }
 static double deadline;
+static int join_extra;
 static int timed_out_;
 #define timed_out LD(timed_out_)
+
+static pthread_attr_t notify_attr;
 
 static void prep(struct Batch *b)
 {
@@ -452,7 +507,7 @@ static void prep(struct Batch *b)
 		const struct Host *h = &hosts[b->host[k]];
 		b->cb[k].ar_name = h->name;
 		b->cb[k].ar_service = h->service;
-		b->cb[k].ar_request = &hints_tab[b->host[k]];
+		b->cb[k].ar_request = h->family == NOHINTS ? NULL : &hints_tab[b->host[k]];
 		b->cb[k].ar_result = (struct addrinfo *)(uintptr_t)0x11;   /* poison: must be overwritten */
 		b->cb[k]._state = STALE;
 		b->list[k] = &b->cb[k];
@@ -461,10 +516,12 @@ static void prep(struct Batch *b)
 	if (b->sev == 'S' || b->sev == 'B') {
 		b->sevs.sigev_notify = SIGEV_SIGNAL;
 		b->sevs.sigev_signo = b->signo;
-	} else if (b->sev == 'T') {
+	} else if (b->sev == 'T' || b->sev == 'A') {
 		b->sevs.sigev_notify = SIGEV_THREAD;
 		b->sevs.sigev_notify_function = cb_thread;
 		b->sevs.sigev_value.sival_int = b->bid;
+		/* 'A': a real, non-default pthread_attr_t (detached, own stack size) */
+		b->sevs.sigev_notify_attributes = b->sev == 'A' ? &notify_attr : NULL;
 	} else
 		b->sevs.sigev_notify = SIGEV_NONE;
 }
@@ -510,7 +567,7 @@ static void submit(struct Batch *b)
 	pthread_sigmask(SIG_SETMASK, NULL, &m0);
 	e = claim();
 	e->kind = E_BEGIN; e->who = my_idx; e->a = b->bid; e->b = b->n; e->c = b->mode; e->d = b->sev;
-	for (k = 0; k < b->n; k++) e->snap[k] = "0123456789abcdef"[b->host[k]];
+	for (k = 0; k < b->n; k++) e->snap[k] = HOSTCH[b->host[k]];
 	e->snap[b->n] = 0;
 	ST(e->ready, 1);
 	in_gaia = 2 + b->bid;
@@ -577,7 +634,7 @@ static void await(struct Batch *b)
 		}
 		return;
 	}
-	if (b->sev == 'T' || b->sev == 'S') {
+	if (b->sev == 'T' || b->sev == 'A' || b->sev == 'S') {
 		if (sem_wait_deadline(&b->sem)) b->done_seen = 1;
 		return;
 	}
@@ -598,7 +655,9 @@ static void await(struct Batch *b)
 static void finals(struct Batch *b)
 {
 	int k;
-	char s[512];
+	if (b->finals_done) return;
+	b->finals_done = 1;
+	char s[1024];
 	for (k = 0; k < b->n; k++) {
 		int rc = gai_error(&b->cb[k]);
 		int same = 0;
@@ -631,6 +690,14 @@ static void *submitter(void *arg)
 	pthread_barrier_wait(&start_bar);   /* thr[] is complete; all submitters start together */
 	for (q = 0; q < nbatch[t] && !timed_out; q++) {
 		struct Batch *b = &batches[t][q];
+		if (window[t] > 0 && q >= window[t]) {
+			/* streaming: keep at most window[t] batches in flight */
+			struct Batch *o = &batches[t][q - window[t]];
+			await(o);
+#ifndef C20_TSAN
+			if (o->done_seen && !o->finals_done) finals(o);
+#endif
+		}
 		perturb();
 		submit(b);
 		if (b->waitnow) {
@@ -708,51 +775,74 @@ static int parse_scn(char *line)
 	scn_seed = strtoull(w[1], NULL, 10);
 	pert = atoi(w[2]);
 	memset(nbatch, 0, sizeof nbatch);
+	memset(window, 0, sizeof window);
 	nthreads = 0;
 	for (i = 3; i < nw; i++) {
 		const char *s = w[i];
 		struct Batch *b;
 		size_t L = strlen(s), k;
 		const char *plus = strchr(s, '+');
+		const char *star = strchr(s, '*');
+		int rep = 1;
+		if (s[0] == 'w') {      /* w<t>=<k>: streaming window of thread t */
+			if (strlen(s) < 4 || s[2] != '=' || s[1] < '1' || s[1] > '0' + NSUB) return 0;
+			window[s[1] - '0'] = atoi(s + 3);
+			if (window[s[1] - '0'] < 1 || window[s[1] - '0'] > 8) return 0;
+			continue;
+		}
+		if (star) {             /* <batch>*<count>: that many batches of the same shape */
+			if (plus) return 0;
+			rep = atoi(star + 1);
+			if (rep < 1 || rep > MAXSEQ) return 0;
+			L = (size_t)(star - s);
+		}
 		if (plus) L = (size_t)(plus - s);
 		if (L < 6 || s[4] != ':') return 0;
 		t = s[0] - '0';
 		if (t < 1 || t > NSUB) return 0;
 		if (nbatch[t] >= MAXSEQ) return 0;
 		if (s[1] != 'W' && s[1] != 'N') return 0;
-		if (!strchr("n0STB", s[2])) return 0;
+		if (!strchr("n0STBA", s[2])) return 0;
 		if (s[3] != '0' && s[3] != '1') return 0;
 		if (L - 5 > MAXN) return 0;
 		b = &batches[t][nbatch[t]];
 		memset(b, 0, sizeof *b);
-		b->t = t; b->seq = nbatch[t]; b->bid = t * 100 + b->seq;
+		b->t = t; b->seq = nbatch[t]; b->bid = t * BIDMUL + b->seq;
 		b->mode = s[1]; b->sev = s[2]; b->waitnow = s[3] - '0';
 		b->n = (int)(L - 5);
 		for (k = 0; k < L - 5; k++) {
-			int v = (s[5 + k] >= '0' && s[5 + k] <= '9') ? s[5 + k] - '0' :
-				(s[5 + k] >= 'a' && s[5 + k] <= 'f') ? s[5 + k] - 'a' + 10 : -1;
-			if (v < 0 || v >= NHOST) return 0;
+			int v = host_of_char(s[5 + k]);
+			if (v < 0) return 0;
 			b->host[k] = v;
 		}
 		b->signo = SIGRTMIN + 1 + (b->seq % 12);
 		sem_init(&b->sem, 0, 0);
 		nbatch[t]++;
 		if (t > nthreads) nthreads = t;
+		while (--rep > 0) {
+			struct Batch *c2;
+			if (nbatch[t] >= MAXSEQ) return 0;
+			c2 = &batches[t][nbatch[t]];
+			memcpy(c2, b, sizeof *c2);
+			c2->seq = nbatch[t]; c2->bid = t * BIDMUL + c2->seq;
+			c2->signo = SIGRTMIN + 1 + (c2->seq % 12);
+			sem_init(&c2->sem, 0, 0);
+			nbatch[t]++;
+		}
 		if (plus) {
 			struct Batch *c;
 			size_t CL = strlen(plus + 1);
-			if (b->mode != 'N' || b->sev != 'T') return 0;
+			if (b->mode != 'N' || (b->sev != 'T' && b->sev != 'A')) return 0;
 			if (CL < 2 || CL - 1 > MAXN || !strchr("n0T", plus[1])) return 0;
 			if (nbatch[CHAIN_T] >= MAXSEQ) return 0;
 			c = &batches[CHAIN_T][nbatch[CHAIN_T]];
 			memset(c, 0, sizeof *c);
-			c->t = CHAIN_T; c->seq = nbatch[CHAIN_T]; c->bid = CHAIN_T * 100 + c->seq;
+			c->t = CHAIN_T; c->seq = nbatch[CHAIN_T]; c->bid = CHAIN_T * BIDMUL + c->seq;
 			c->mode = 'N'; c->sev = plus[1]; c->waitnow = 0;
 			c->n = (int)(CL - 1);
 			for (k = 0; k < CL - 1; k++) {
-				int ch = plus[2 + k];
-				int v = (ch >= '0' && ch <= '9') ? ch - '0' : (ch >= 'a' && ch <= 'f') ? ch - 'a' + 10 : -1;
-				if (v < 0 || v >= NHOST) return 0;
+				int v = host_of_char(plus[2 + k]);
+				if (v < 0) return 0;
 				c->host[k] = v;
 			}
 			c->signo = SIGRTMIN + 1;
@@ -764,7 +854,7 @@ static int parse_scn(char *line)
 	for (t = 1; t < MAXT; t++) {
 		struct Batch *f = &batches[t][MAXSEQ];
 		memset(f, 0, sizeof *f);
-		f->t = t; f->seq = FENCE_SEQ; f->bid = t * 100 + FENCE_SEQ; f->mode = 'N'; f->sev = 'T';
+		f->t = t; f->seq = FENCE_SEQ; f->bid = t * BIDMUL + FENCE_SEQ; f->mode = 'N'; f->sev = 'T';
 		f->n = 1; f->host[0] = 0; f->waitnow = 1;
 		sem_init(&f->sem, 0, 0);
 	}
@@ -774,6 +864,7 @@ static int parse_scn(char *line)
 static const char *who_s(int w, char *buf)
 {
 	if (w == -1) return "W";
+	if (w == -2) return "N";
 	snprintf(buf, 8, "%d", w);
 	return buf;
 }
@@ -793,7 +884,7 @@ NOTSAN static void print_trace(void)
 		if (!e->ready) { printf("unfilled %d\n", i); continue; }
 		w = who_s(e->who, wb);
 		switch (e->kind) {
-		case E_BEGIN: printf("begin %s %d %d %c %c %s\n", w, e->a, e->b, e->c, e->d == 'n' ? '0' : e->d, e->snap); break;
+		case E_BEGIN: printf("begin %s %d %d %c %c %s\n", w, e->a, e->b, e->c, e->d == 'n' ? '0' : e->d == 'A' ? 'T' : e->d, e->snap); break;
 		case E_LOCK:
 			if (e->snap[0]) printf("lock %s %s %s\n", w, mclass(e->c), e->snap);
 			else printf("lock %s %s\n", w, mclass(e->c));
@@ -803,10 +894,10 @@ NOTSAN static void print_trace(void)
 		case E_MALLOC: printf("malloc %s %d\n", w, e->a); break;
 		case E_SIGNAL: printf("signal %s\n", w); break;
 		case E_RET: printf("ret %s %d %d %s\n", w, e->a, e->c, e->snap); break;
-		case E_GACALL: printf("gacall %s %d %d %d\n", w, e->a, e->b, e->c); break;
+		case E_GACALL: printf("gacall %s %d %d %d %d\n", w, e->a, e->b, e->c, e->d); break;
 		case E_GARET: printf("garet %s %d %d %d\n", w, e->a, e->b, e->c); break;
 		case E_NOTIFY: printf("notify %s %d %s\n", w, e->a, e->snap); break;
-		case E_KILL: printf("kill %s %d %d\n", w, e->a, e->b); break;
+		case E_KILL: printf("kill %s %d %d %d\n", w, e->a, e->b, e->c); break;
 		case E_SIGRECV: printf("sigrecv %s %d %d %s\n", w, e->a, e->c, e->snap); break;
 		case E_FREE: printf("free %s\n", w); break;
 		case E_CWAIT: printf("cwait %s\n", w); break;
@@ -845,17 +936,27 @@ static void run_child(void)
 		hints_tab[i].ai_flags = hosts[i].flags;
 		hints_tab[i].ai_family = hosts[i].family;
 		hints_tab[i].ai_socktype = hosts[i].socktype;
-		oracle_rc[i] = __real_getaddrinfo(hosts[i].name, hosts[i].service, &hints_tab[i], &r);
+		hints_tab[i].ai_protocol = hosts[i].protocol;
+		oracle_rc[i] = __real_getaddrinfo(hosts[i].name, hosts[i].service,
+						  hosts[i].family == NOHINTS ? NULL : &hints_tab[i], &r);
 		oracle_str[i][0] = 0;
 		if (oracle_rc[i] == 0) { ai_str(r, oracle_str[i], sizeof oracle_str[i]); freeaddrinfo(r); }
 	}
+	pthread_attr_init(&notify_attr);
+	pthread_attr_setdetachstate(&notify_attr, PTHREAD_CREATE_DETACHED);
+	pthread_attr_setstacksize(&notify_attr, 256 * 1024);
 	memset(&sa, 0, sizeof sa);
 	sa.sa_sigaction = on_signal;
 	sa.sa_flags = SA_SIGINFO | SA_RESTART;
 	sigemptyset(&sa.sa_mask);
 	for (i = 1; i <= WRONG_SLOT; i++) sigaction(SIGRTMIN + i, &sa, NULL);
 
-	deadline = now_s() + 6.0;
+	{
+		int tot = 0;
+		for (t = 1; t < MAXT; t++) tot += nbatch[t];
+		deadline = now_s() + 6.0 + 0.03 * tot;
+		join_extra = (int)(0.03 * tot);
+	}
 	pthread_barrier_init(&start_bar, NULL, nthreads + 1);
 	for (t = 1; t <= nthreads; t++) {
 		__real_pthread_create(&th[t], NULL, submitter, (void *)(intptr_t)t);
@@ -866,7 +967,7 @@ static void run_child(void)
 		/* join with one common deadline: a hung submitter must not hang the harness */
 		struct timespec ts;
 		clock_gettime(CLOCK_REALTIME, &ts);
-		ts.tv_sec += 9;
+		ts.tv_sec += 9 + join_extra;
 		for (t = 1; t <= nthreads; t++)
 			if (pthread_timedjoin_np(th[t], NULL, &ts) != 0) ST(timed_out_, 1);
 	}
@@ -903,7 +1004,7 @@ int main(void)
 	while (fgets(line, sizeof line, stdin)) {
 		size_t L = strlen(line);
 		pid_t pid;
-		int st = 0, waited = 0;
+		int st = 0, waited = 0, hard = 2500;
 		while (L && (line[L - 1] == '\n' || line[L - 1] == '\r')) line[--L] = 0;
 		if (!L) continue;
 		strcpy(copy, line);
@@ -916,12 +1017,13 @@ int main(void)
 			_exit(0);
 		}
 		/* hard limit for a hung or spinning child */
-		for (waited = 0; waited < 2500; waited++) {
+		{ int tb = 0, tt; for (tt = 1; tt < MAXT; tt++) tb += nbatch[tt]; hard = 2500 + 8 * tb; }
+		for (waited = 0; waited < hard; waited++) {
 			pid_t r = waitpid(pid, &st, WNOHANG);
 			if (r == pid) break;
 			usleep(10000);
 		}
-		if (waited >= 2500) {
+		if (waited >= hard) {
 			kill(pid, SIGKILL);
 			waitpid(pid, &st, 0);
 			printf("crash hard-timeout\n");
